@@ -15,7 +15,7 @@ LEVEL_NOTE = [
     "Lean 4.33 kernel; axioms ⊆ {propext, Classical.choice, Quot.sound} (audited each run)",
     "Model/Versioning.lean hand model of is_valid_for_version / get_versioned_properties / get_versioned_schema / get_expanded_schema incl. the shared-document store that jsonref proxies form; tied by the `vrun` correspondence",
     "Gen/Schemas.lean regenerated from mappyfile/schemas/*.json on every run (obligations C09_acyclic, C09_files_metaWF, C09_files_bounds re-checked by the kernel)",
-    "C09_cache_transparent assumes PruneIdem (pruning a pruned load changes nothing) and KeysInj (name+str(version) identifies the request): PruneIdem is proved for reference-free schemas (C09_tree_spec + C09_spec_idem) and *executed* for every schema file × version class of the real folder each run, not yet kernel-proved for the shared store",
+    "C09_cache_transparent_files is unconditional for the regenerated folder (C09_prune_idem is kernel-proved for every well-formed folder, C09_files_wf by decide +kernel); hypotheses left: KeysInj (name+str(version) identifies the request) and versions in [0, 1000]; the PruneIdem premise is additionally executed on the model for every schema × class",
     "versions are compared as thousandths; Python compares the nearest doubles (monotone rounding; bounds have ≤ 3 decimals — refused otherwise)",
     "jsonschema's verdict on the pruned schema is third-party (validator gap): exercised by oracle (b)",
 ]
